@@ -267,6 +267,52 @@ def run_red(case, stt):
     stt.label("layout_" + lay)
 
 
+@st.composite
+def red_long_case(draw):
+    return {"n": draw(st.sampled_from([65535, 65536, 65537, 70001])), "seed": draw(st.integers(0, 10**6)), "big": draw(st.sampled_from([0, 10**6, 2**45, 10**15])),
+            "fn": draw(st.sampled_from(["min", "max", "argmin", "argmax", "sort", "argsort", "ptp"])), "shape2d": draw(st.booleans())}
+
+
+def run_red_long(case, stt):
+    import pulsarbat as pb
+
+    n = case["n"]
+    rng = np.random.default_rng(case["seed"])
+    cnt = np.full(n, float(case["big"]))
+    fr = 0.1 + rng.integers(-8, 9, n) * 2.0**-50 + rng.integers(0, 3, n) * 2.0**-30
+    # the extremes sit at block edges now and then
+    for pos, delta in ((n - 1, -(2.0**-40)), (65535 if n > 65535 else 0, 2.0**-39)):
+        if rng.integers(0, 2):
+            fr[pos] += delta
+    with lib("long Phase array reduction"):
+        p = pb.Phase(cnt, fr)
+        if case["shape2d"] and n % 1 == 0:
+            pass
+        fn = case["fn"]
+        r = getattr(p, fn)() if fn not in ("sort", "argsort") else getattr(p, fn)()
+    ex = O.phase_fractions(p)
+    lo, hi = min(ex), max(ex)
+    if fn in ("min", "max", "ptp"):
+        g = O.phase_fraction(r)
+        want = {"min": lo, "max": hi, "ptp": hi - lo}[fn]
+        check(abs(g - want) <= (3 * TWO52 if fn == "ptp" else TWO52), "{} of {} phases gives {} but exactly {}", fn, n, _fmt(g), _fmt(want))
+    elif fn in ("argmin", "argmax"):
+        i = int(r)
+        check(abs(ex[i] - (lo if fn == "argmin" else hi)) <= TWO52, "{} of {} phases -> index {} holding {}, exact extreme {}", fn, n, i, _fmt(ex[i]),
+              _fmt(lo if fn == "argmin" else hi))
+    elif fn == "sort":
+        g = O.phase_fractions(r)
+        check(len(g) == n and all(b - a >= -TWO52 for a, b in zip(g, g[1:])), "sort of {} phases is not non-decreasing", n)
+        check(sorted(g) == sorted(ex), "sort of {} phases is not a permutation of the input", n)
+    else:
+        idx = np.asarray(r)
+        check(sorted(idx.tolist()) == list(range(n)), "argsort of {} phases is not a permutation", n)
+        seq = [ex[i] for i in idx]
+        check(all(b - a >= -TWO52 for a, b in zip(seq, seq[1:])), "argsort of {} phases does not order them", n)
+    stt.nt()
+    stt.label("fn_" + fn)
+
+
 # ---------------------------------------------------------------------------------------------
 # 3. rendering
 # ---------------------------------------------------------------------------------------------
@@ -471,6 +517,9 @@ SUBS = [
         "min/max/argmin/argmax/sort/argsort/ptp as methods and np.min/np.max/np.argmin/np.argmax, axis None or any axis, keepdims: the result is a "
         "correct answer under the exact order (any order among ties), a permutation where applicable, and a normalised Phase; non-trivial = two "
         "elements of a lane closer than one ulp of their cycle count", quick=3000, thorough=60000, pieces_quick=4),
+    Sub("long_reductions", red_long_case(), run_red_long,
+        "min/max/argmin/argmax/sort/argsort/ptp of 65535..70001 phases whose fractions differ by multiples of 2^-50 at counts to 1e15, extremes "
+        "sometimes at the last element or at index 65535; all non-trivial", quick=24, thorough=300, pieces_quick=4),
     Sub("rendering", render_case(), run_render,
         "to_string(), to_string(precision=0..25), alwayssign, format(x, '[+][w].pf'), str(), arrays, imaginary phases, for counts to +-2^52 and "
         "fractions incl. values within 1e-17 of an integer and decimal rounding ties; non-trivial = precision <= 1 or >= 16, or a fraction below "
